@@ -391,7 +391,9 @@ def run(ctx, P):
     clause_d(ctx, P)
     clause_e(ctx, P)
     clause_f(ctx, P)
-    # clause (g) 're-browse replaces' is stated by C19 and checked there (stop purges every chain of the type)
+    # 're-browse replaces': also for a cache-only browse, which sends nothing itself but must still cancel the chain of an
+    # earlier ordinary browse of the same type (the same clause is C19c / C20)
+    check_restart_replaces(ctx, P, "Zeroconf::exec_command_browse", "Browse", rule="C13n")
 
 
 def cache_only_marker(P):
